@@ -3,7 +3,7 @@
    applied to the REAL Inner / ConnectionState / handles through the CoreProbe, with
    what was observed after each one. *)
 From Amq Require Export Lib.Base Gen.Consts Model.Wire Model.Frames Model.OutBuf
-     Model.Collector Model.Slots Model.Core Spec.FrameBuf.
+     Model.Collector Model.Slots Model.Core Spec.FrameBuf Spec.Content.
 
 Definition rep (n b : N) : bytes := repeat b (N.to_nat n).
 
@@ -39,9 +39,6 @@ Inductive cobs :=
 (* phase, outbuf length, outbuf adler32, sealed, open ids *)
 Definition digest := (N * N * N * bool * list N)%type.
 
-Inductive addressee := AConsumer (ch : N) (tag : str) | AGetter (ch : N) | AReturn (ch : N)
-                     | AConfirm (ch : N) | ABlocked.
-
 (* channel_max, mailbox bound, operations, observations, and for the property oracles
    which client-side queue belongs to which addressee (the harness created them) *)
 Definition case := (N * N * list cop * list (cobs * digest) * list (N * addressee))%type.
@@ -59,7 +56,7 @@ Definition digest_of (c : core) : digest :=
 Definition set_rx (q : N) (b : bool) (m : qs) : qs :=
   match alookup q m with
   | None => m
-  | Some qu => ainsert q {| q_items := q_items qu; q_cap := q_cap qu; q_tx := q_tx qu; q_rx := b |} m
+  | Some qu => ainsert q {| q_items := q_items qu; q_hist := q_hist qu; q_cap := q_cap qu; q_tx := q_tx qu; q_rx := b |} m
   end.
 
 Definition step (w : world) (o : cop) : cobs * world :=
@@ -117,7 +114,7 @@ Definition step (w : world) (o : cop) : cobs * world :=
       | Some qu =>
           match q_items qu with
           | it :: rest =>
-              let c' := set_qs c (ainsert q {| q_items := rest; q_cap := q_cap qu; q_tx := q_tx qu;
+              let c' := set_qs c (ainsert q {| q_items := rest; q_hist := q_hist qu; q_cap := q_cap qu; q_tx := q_tx qu;
                                                q_rx := q_rx qu |} (c_qs c)) in
               let hs := match it with
                         | IAllocOk id =>
@@ -276,91 +273,45 @@ Definition digest_eqb (a b : digest) : bool :=
   let '(p1, l1, s1, z1, i1) := a in let '(p2, l2, s2, z2, i2) := b in
   (p1 =? p2) && (l1 =? l2) && (s1 =? s2) && Bool.eqb z1 z2 && list_eqb N.eqb i1 i2.
 
-(* after a panic the probe is poisoned: compare up to and including it; after an error
-   outcome, only what is still defined by the code (teardown, client side) follows *)
-Fixpoint agree (m obs : list (cobs * digest)) : bool :=
+(* does the op feed a connection-level Close / CloseOk? *)
+Definition is_conn_close_frame (f : frame) : bool :=
+  match f with FMethod 0 (MConnClose _ _) | FMethod 0 MConnCloseOk => true | _ => false end.
+Definition op_has_conn_close (o : cop) : bool :=
+  match o with
+  | OFrame (f, _) => is_conn_close_frame f
+  | OEvent (EvStream _ (Some (fs, _))) => existsb (fun '(f, _) => is_conn_close_frame f) fs
+  | _ => false
+  end.
+
+Definition is_err_outcome (b : cobs) : bool :=
+  match b with BOutcome (OErr _) _ _ => true | _ => false end.
+
+(* After a panic the probe is poisoned: compare up to and including it.
+   When notifying every slot of a connection close fails midway (a full or dropped reply
+   queue) with two or more slots open, WHICH slots were already notified - and which of two
+   failing slots reports its error - follows the iteration order of a std HashMap, which
+   nothing fixes: both sides must fail, and the comparison stops there. *)
+Fixpoint agree (nopen : nat) (ops : list cop) (m obs : list (cobs * digest)) : bool :=
   match m, obs with
   | [], [] => true
   | (b1, d1) :: m', (b2, d2) :: obs' =>
       match b2 with
       | BOutcome (OPanic _) _ _ => cobs_eqb b1 b2
-      | _ => cobs_eqb b1 b2 && digest_eqb d1 d2 && agree m' obs'
+      | _ =>
+          if is_err_outcome b2 && (2 <=? nopen)%nat && op_has_conn_close (hd OIsDone ops)
+          then is_err_outcome b1
+          else cobs_eqb b1 b2 && digest_eqb d1 d2 &&
+               agree (length (snd d2)) (tl ops) m' obs'
       end
   | _, _ => false
   end.
 
 Definition model_agrees (c : case) : bool :=
-  let '(_, _, _, obs, _) := c in agree (model_out c) obs.
+  let '(_, _, ops, obs, _) := c in agree 0 ops (model_out c) obs.
 
 (* ====================== property oracles (model-independent) ====================== *)
 
 (* ---- the compliant reading of a frame sequence (C03 / C07) ---- *)
-
-Inductive rmsg :=
-| RDelivery (m : message)
-| RGot (m : message) (count : N)
-| RReturned (code : N) (text exch rk : str) (body : bytes) (props : N).
-
-(* per-channel reader state *)
-Inductive rstate :=
-| RSNone
-| RSStart (k : ckind)
-| RSBody (k : ckind) (size props : N) (acc : bytes).
-
-Definition finish (ch : N) (k : ckind) (props : N) (body : bytes) : addressee * rmsg :=
-  match k with
-  | CDeliver tag dtag red exch rk =>
-      (AConsumer ch tag, RDelivery {| m_ch := ch; m_dtag := dtag; m_redelivered := red;
-                                      m_exch := exch; m_rk := rk; m_body := body; m_props := props |})
-  | CGet dtag red exch rk count =>
-      (AGetter ch, RGot {| m_ch := ch; m_dtag := dtag; m_redelivered := red;
-                           m_exch := exch; m_rk := rk; m_body := body; m_props := props |} count)
-  | CReturn code text exch rk => (AReturn ch, RReturned code text exch rk body props)
-  end.
-
-(* reads the frames in order; stops at the first frame a compliant server cannot send
-   at that point (everything read so far stands) *)
-Fixpoint ref_read (st : alist rstate) (fs : list frame) : list (addressee * rmsg) :=
-  match fs with
-  | [] => []
-  | f :: fs' =>
-      match f with
-      | FMethod ch (MDeliver tag dtag red exch rk) =>
-          match alookup ch st with
-          | None | Some RSNone => ref_read (ainsert ch (RSStart (CDeliver tag dtag red exch rk)) st) fs'
-          | _ => []
-          end
-      | FMethod ch (MReturn code text exch rk) =>
-          match alookup ch st with
-          | None | Some RSNone => ref_read (ainsert ch (RSStart (CReturn code text exch rk)) st) fs'
-          | _ => []
-          end
-      | FMethod ch (MGetOk dtag red exch rk count) =>
-          match alookup ch st with
-          | None | Some RSNone => ref_read (ainsert ch (RSStart (CGet dtag red exch rk count)) st) fs'
-          | _ => []
-          end
-      | FHeader ch size props =>
-          match alookup ch st with
-          | Some (RSStart k) =>
-              if size =? 0 then finish ch k props [] :: ref_read (ainsert ch RSNone st) fs'
-              else ref_read (ainsert ch (RSBody k size props []) st) fs'
-          | _ => []
-          end
-      | FBody ch body =>
-          match alookup ch st with
-          | Some (RSBody k size props acc) =>
-              let acc' := acc ++ body in
-              match N.of_nat (length acc') ?= size with
-              | Eq => finish ch k props acc' :: ref_read (ainsert ch RSNone st) fs'
-              | Lt => ref_read (ainsert ch (RSBody k size props acc') st) fs'
-              | Gt => []
-              end
-          | _ => []
-          end
-      | _ => ref_read st fs'
-      end
-  end.
 
 (* frames fed to the thread by a case, in order *)
 Definition frames_of_op (o : cop) : list frame :=
